@@ -429,13 +429,13 @@ impl Property for C03 {
         // (a) independent by-name formula
         let (exp, mag) = model(c.op, &a, &b, second);
         let tol = |m: f64| 1e-13 * m + 1e-300;
-        if (res.real - exp.real).abs() > tol(mag.real) {
+        if !((res.real - exp.real).abs() <= tol(mag.real)) {
             v.fail("value differs from the by-name formula", format!("{:e} vs {:e}", res.real, exp.real));
             return v;
         }
         for n in &full {
             let (g, e) = (get1(&res.d1, *n), get1(&exp.d1, *n));
-            if (g - e).abs() > tol(get1(&mag.d1, *n)) {
+            if !((g - e).abs() <= tol(get1(&mag.d1, *n))) {
                 v.fail(
                     "first derivative by name differs from the by-name formula",
                     format!("d/d{}: result {:e}, formula {:e}; a = {:?} on {:?}; b = {:?} on {:?}", NAMES[*n as usize], g, e, a, c.a.layout, b, c.b.layout),
@@ -446,7 +446,7 @@ impl Property for C03 {
                 for m in &full {
                     let k = (*n, *m);
                     let (g, e) = (get2(&res.d2, k), get2(&exp.d2, k));
-                    if (g - e).abs() > tol(get2(&mag.d2, k)) {
+                    if !((g - e).abs() <= tol(get2(&mag.d2, k))) {
                         v.fail(
                             "second derivative by name differs from the by-name formula",
                             format!("d2/d{}d{}: result {:e}, formula {:e}; a = {:?} on {:?}; b = {:?} on {:?}", NAMES[*n as usize], NAMES[*m as usize], g, e, a, c.a.layout, b, c.b.layout),
